@@ -100,8 +100,8 @@ def gen_case(rng, tier, idx):
                 if cand:
                     off = rng.choice(cand)
             e = {"class": "FundamentalPriceShock", "target": rng.choice(spots), "triggerTime": off,
-                 "priceChangeRate": rng.choice([-0.5, -0.2, -0.01, 0.01, 0.1, 0.5]),
-                 "shockTimeLength": rng.choice([1, 1, 2, 3, 5])}
+                 "priceChangeRate": rng.choice([-0.5, -0.2, -0.01, 0.0, 0.01, 0.1, 0.5]),
+                 "shockTimeLength": rng.choice([0, 1, 1, 2, 3, 5])}
         else:
             off = rng.choice([0, steps - 1, rng.randrange(steps)])
             tgt = rng.choice(mk)
@@ -109,8 +109,8 @@ def gen_case(rng, tier, idx):
                 continue
             used.add((tgt, starts[si] + off))
             e = {"class": "OrderMistakeShock", "target": tgt, "triggerTime": off,
-                 "priceChangeRate": rng.choice([-0.3, -0.05, -0.01, 0.01, 0.05, 0.3]),
-                 "orderVolume": rng.choice([1, 7, 100]), "orderTimeLength": rng.choice([1, 4, 30])}
+                 "priceChangeRate": rng.choice([-0.3, -0.05, -0.01, 0.0, 0.01, 0.05, 0.3]),
+                 "orderVolume": rng.choice([1, 7, 100]), "orderTimeLength": rng.choice([0, 1, 4, 30])}
         if rng.random() < 0.12:
             e["enabled"] = False
         cfg[name] = e
@@ -178,6 +178,8 @@ class C14Monitor:
         self.adv = {}     # market_id -> value at the clock advance (current time)
         self.end_prev = {}
         self.requests = {}
+        self.mistaken = []
+        self.expired_seen = set()
         self.applied = 0
         self.replaced = 0
         self.dead = False
@@ -222,6 +224,8 @@ class C14Monitor:
                 self.adv[m.market_id] = v
         elif k == "log_write":
             n = type(ev["log"]).__name__
+            if n == "ExpirationLog":
+                self.expired_seen.add((ev["log"].market_id, ev["log"].order_id))
             if n in ("MarketStepBeginLog", "MarketStepEndLog"):
                 m = ev["log"].market
                 t = m.get_time()
@@ -251,6 +255,16 @@ class C14Monitor:
                 # the series value must be the same thing
                 if m.get_fundamental_prices([t])[0] != v:
                     res.violation("series", "fundamental-series-differs-from-scalar-getter", {"market": m.name, "time": t})
+        elif k == "time_ret":
+            # the mistaken order lives for its configured lifetime: gone when the clock passes accept + ttl
+            for mo in self.mistaken:
+                if mo["mkt"] is ev["mkt"] and ev["time"] == mo["accepted"] + mo["ttl"] + 1:
+                    o = mo["order"]
+                    res.count("mistaken_order_lifetimes_checked")
+                    if o.volume > 0 and not o.is_canceled and (ev["mkt"].market_id, mo["oid"]) not in self.expired_seen:
+                        res.violation("mistake", "mistaken-order-outlives-its-configured-lifetime",
+                                      {"order": taps.snap_order(o), "accepted_at": mo["accepted"], "ttl": mo["ttl"],
+                                       "now": ev["time"]})
         elif k == "consult_ret":
             for o, s in zip(ev["orders"], ev["snaps"]):
                 if "price" in s:
@@ -282,6 +296,7 @@ class C14Monitor:
         if due is not None:
             due["done"] = True
             self.replaced += 1
+            self.mistaken.append({"order": ev["order"], "mkt": mkt, "accepted": t, "ttl": due["ttl"], "oid": log.order_id})
             res.count("class/order_replaced")
             if due["seen_other_first"]:
                 res.count("class/first_order_went_elsewhere")
